@@ -38,10 +38,21 @@ def many_chunks():
 def run(ctx):
     thorough = ctx.tier == "thorough"
     models = [("C01Model.tla", "C01_thorough.cfg" if thorough else "C01_quick.cfg")]
+    # the arithmetic of chunk tiling for ALL extents, chunk sizes and coordinates (Apalache; TLC checks GeomOK on the
+    # enumerated shapes); the floor-instead-of-ceiling variant must be refuted
+    import h5vlib as H
+    if ctx.apalache("ChunkGeomLemmas.tla", "Init", "Lemmas", 0) != "ok":
+        raise H.Infra("ChunkGeomLemmas: a tiling lemma no longer holds")
+    if ctx.apalache("ChunkGeomLemmas.tla", "Init", "BadCover", 0) != "error":
+        raise H.Infra("ChunkGeomLemmas: the wrong cover lemma is not refuted - the proof is vacuous")
     return run_logical(
         ctx, LEVEL, models,
         extra_cases=many_chunks() + random_big(ctx, 6000 if thorough else 800),
         nontrivial=lambda c: len(c["ops"][0].get("chunk") or []) > 0 or len(c["ops"][0]["dims"]) > 1 or c["ops"][0]["dims"][0] > 1,
+        extra_cov={"unbounded_design_proof": {"tool": "apalache", "module": "spec/proofs/ChunkGeomLemmas.tla",
+                                              "statement": "per dimension, for all extents d >= 1, chunk sizes c >= 1 and coordinates 0 <= x < d: the chunk x div c is a chunk "
+                                                           "of the dataset and contains x, no other chunk does, no indexed chunk is empty, keys identify chunks, the chunks cover the extent",
+                                              "sensitivity": "the cover lemma with floor instead of ceiling is refuted"}},
         rule="cases = the complete configuration lattice enumerated by TLC (C01Model: element type x rank x extents x "
              "every chunk shape <= extent incl. non-divisors and contiguous x data class x superblock 0/2/3; chunk geometry laws "
              "checked on each) plus seeded random larger shapes (prime extents up to 97, rank <= 4, up to hundreds of chunks); "
